@@ -692,6 +692,18 @@ func (vc *VC) evalConversion(st *State, call *ast.CallExpr, to types.Type) *Valu
 	arg := call.Args[0]
 	from := vc.typeOf(arg)
 	v := vc.evalExpr(st, arg)
+	// converting a (non-constant) value to a type with a declared invariant creates a value of that type
+	if n := namedOf(to); n != nil && v.K == VInt {
+		if ti := vc.w.TypeInvs[n.Obj().Pkg().Path()+"."+n.Obj().Name()]; ti != nil {
+			if tv, ok := vc.curInfo.Types[arg]; !ok || tv.Value == nil {
+				if vc.specMode == 0 && !vc.noSafety["type-inv"] {
+					t := vc.typeInvTerm(st, ti, intV(v.Term, to))
+					vc.oblige(st, "type-inv", n.Obj().Name(), "value converted to "+n.Obj().Name()+" satisfies its invariant: "+vc.nodeText(call), call.Pos(), t)
+					st.assume(t)
+				}
+			}
+		}
+	}
 	switch {
 	case isInterface(to):
 		return vc.convertTo(st, v, from, to)
